@@ -103,7 +103,7 @@ def validate(rep, name, contracts, fees, clauses, n, length, seed):
     fixed, prop = FEES[fees]
     defs = {"C": set(contracts), "Mult": {c: cs[c]["mult"] for c in contracts}, "CashReq": {c: cs[c]["cashreq"] for c in contracts},
             "Mr": {c: cs[c]["mr"] for c in contracts}, "Fixed": fixed, "Prop": prop, "Deposit": F(1000), "Rate": F(0),
-            "Markup": F(0), "Epsilon": F(0), "Clauses": set(clauses)}
+            "Markup": F(0), "RatePath": [], "Epsilon": F(0), "Clauses": set(clauses)}
     module = tlagen.mc_module("MCT", "BrokerTrace", defs)
     cfg = tlagen.cfg(defs, {"RefRule": "carry", "SpotMult": "applied", "SubLot": "skip", "ExpectedStates": expected},
                      invariants=["Accepted"], postcondition="AllConsumed")
